@@ -17,6 +17,7 @@ from .. import docmodel
 from ..core import Prop, Result
 from ..curvemachine import CurveMachine, gen_curve_ops, NAMES_PLAIN as CNAMES
 from ..sectionmachine import SectionMachine, gen_ops, NAMES_PLAIN as SNAMES
+from .c19 import corpus_files, CORPUS_DIR
 
 HOWS = ["pickle0", "pickle1", "pickle2", "pickle3", "pickle4", "pickle5", "deepcopy"]
 
@@ -58,12 +59,21 @@ class C17(Prop):
         "write() comparison is made on the pair directly when the copy is the last operation, otherwise on throw-away "
         "pickle copies of both (write() legitimately refreshes STRT/STOP/STEP in memory)",
     ]
-    quick = {"runs": 45000, "wall": 60}
+    quick = {"runs": 28000, "wall": 60}
     thorough = {"runs": 200000, "wall": 900}
     hash_sensitive = True
 
     def gen(self, st, tier, index):
         g = st.gen
+        if g.random() < 0.08:
+            # example-corpus object: copies only (no further history)
+            files = corpus_files()
+            ops = [self.gen_copy(g, last=(k == 2)) for k in range(3)]
+            for op in ops:
+                op[3] = "keep"
+            return {"init": {"kind": "corpus", "file": g.choice(files), "case": g.choice(["upper", "preserve", "lower"]),
+                             "engine": g.choice(["numpy", "normal"])}, "ops": ops,
+                    "wkw": g.choice([{}, {"version": 1.2}, {"version": 2.0}, {"wrap": True}])}
         if g.random() < 0.5:
             init = {"kind": "read", "ncurves": g.randint(2, 4), "nrows": g.randint(1, 4), "engine": g.choice(["numpy", "normal"]),
                     "textcol": g.random() < 0.3, "dups": g.random() < 0.5, "case": g.choice(["upper", "preserve", "lower"])}
@@ -98,6 +108,12 @@ class C17(Prop):
         import lasio
         init = sc["init"]
         cm = CurveMachine({"kind": "fresh", "nrows": init.get("nrows", 3)}, res)
+        if init["kind"] == "corpus":
+            import os
+            las = lasio.read(os.path.join(CORPUS_DIR, init["file"]), engine=init["engine"], mnemonic_case=init["case"])
+            cm.las = las
+            cm.L = [{"orig": c.original_mnemonic, "unit": c.unit, "value": c.value, "descr": c.descr, "data": np.array(c.data, copy=True)} for c in las.curves]
+            cm.rows = len(las.curves[0].data) if len(las.curves) else 0
         if init["kind"] == "read":
             nc, nr = init["ncurves"], init["nrows"]
             names = ["DEPT"] + ["C%d" % j for j in range(1, nc)]
@@ -133,7 +149,15 @@ class C17(Prop):
 
     def run(self, sc):
         res = Result()
-        cm, sms = self.build(sc, res)
+        try:
+            cm, sms = self.build(sc, res)
+        except Exception as e:
+            if sc["init"]["kind"] == "corpus":
+                res.skipped = "corpus file unreadable"
+                return res
+            raise
+        if sc["init"]["kind"] == "corpus":
+            res.count("corpus-objects")
         nops = len(sc["ops"])
         for i, op in enumerate(sc["ops"]):
             try:
@@ -306,6 +330,8 @@ class C17(Prop):
 
     def simplify(self, sc):
         import copy as _c
+        if sc["init"]["kind"] == "corpus":
+            return
         if sc["init"]["kind"] == "read":
             for k, v in (("dups", False), ("textcol", False), ("case", "upper"), ("engine", "normal")):
                 if sc["init"].get(k) not in (v, None):
